@@ -130,7 +130,12 @@ impl Scenario for Ribbit {
 
     fn generate(&self, rng: &mut Rng, _tier: Tier) -> Case {
         let nprod = rng.range(1, 2) as usize;
-        let products: Vec<String> = (0..nprod).map(|i| ["wow", "wow_classic", "d3", "agent7"][(i + rng.usize_below(2)) % 4].to_string()).collect();
+        let mut products: Vec<String> = (0..nprod).map(|i| ["wow", "wow_classic", "d3", "agent7"][(i + rng.usize_below(2)) % 4].to_string()).collect();
+        // one database in twelve has a product whose name needs care on some transport (the request line
+        // splits on '/', the HTTP client builds a URL from it)
+        if rng.chance(1, 12) {
+            products[0] = (*rng.pick(&["WoW-Beta.1", "wow beta", "w\u{00f6}w", "wow?x=1", "wow#frag", "wow%41", "wow+plus", "wow&amp"])).to_string();
+        }
         let nrec = rng.range(1, 6) as usize;
         let hostile = rng.chance(22, 100);
         let mixed_ts = rng.chance(30, 100);
